@@ -70,4 +70,29 @@ theorem chkTransitions_ok : chkTransitions = true := by decide +kernel
 /-! ### equality of codes on resolved bases means same base -/
 theorem chkSame_ok : chkSame = true := by decide +kernel
 
+theorem chkResolvedDiffer_ok : chkResolvedDiffer = true := by decide +kernel
+
+end Gofasta.Lemmas
+
+namespace Gofasta.Lemmas
+open Gofasta Base Model Spec
+
+theorem enc_same_iff (a b : Nat) (ha : a < 256) (hb : b < 256) (hea : enc false a ≠ 0) (heb : enc false b ≠ 0)
+    (hr : isACGT a = true) : (enc false a == enc false b) = (upper a == upper b) := by
+  have h1 := (List.all_eq_true.1 chkSame_ok) a (mem_accepted ha hea)
+  have h2 := (List.all_eq_true.1 h1) b (mem_accepted hb heb)
+  simpa [hr] using h2
+
+theorem enc_transitions (a b : Nat) (ha : a < 256) (hb : b < 256) (hea : enc false a ≠ 0) (heb : enc false b ≠ 0)
+    (hra : isACGT a = true) (hrb : isACGT b = true) :
+    (((enc false a ||| enc false b) == 200) = ((upper a == 65 && upper b == 71) || (upper a == 71 && upper b == 65))) ∧
+    (((enc false a ||| enc false b) == 56) = ((upper a == 67 && upper b == 84) || (upper a == 84 && upper b == 67))) := by
+  have h1 := (List.all_eq_true.1 chkTransitions_ok) a (mem_accepted ha hea)
+  have h2 := (List.all_eq_true.1 h1) b (mem_accepted hb heb)
+  simp only [hra, hrb, Bool.and_self, Bool.not_true, Bool.false_or, Bool.and_eq_true, beq_iff_eq] at h2
+  exact h2
+
+theorem isACGT_of_upper_eq {a b : Nat} (h : upper a = upper b) : isACGT a = isACGT b := by
+  simp [isACGT, h]
+
 end Gofasta.Lemmas
